@@ -733,6 +733,7 @@ def gen_tcp_case(g, tier):
                                         ("ua1.test", 5060), ("ua2.test", None)]),
                       "rport": g.chance(0.6)})
     pending = []     # transactions awaiting responses: (conn, method, via_as_relayed, dialog, got_final)
+    dash_twin = []
     steps = g.rint(4, 20 * nconn if tier != "quick" else 5 * nconn)
     branches = set()
     for _ in range(steps):
@@ -751,14 +752,30 @@ def gen_tcp_case(g, tier):
             continue
         cn = g.pick(conns)
         br = "z9hG4bK" + g.word(ALNUM.upper(), 6, 10)
-        if pending and g.chance(0.35):
+        forced_method = None
+        if g.chance(0.06):
+            # extension method containing '-': method M-X with branch Y, and (on another connection announcing the
+            # same sent-by) method M with branch X-Y -- distinct branches, distinct transactions
+            x, y = "z9hG4bKq" + g.word(ALNUM.upper(), 3, 6), "z9hG4bK" + g.word(ALNUM.upper(), 6, 10)
+            first = g.chance(0.5)
+            forced_method, br = ("PING-" + x, y) if first else ("PING", x + "-" + y)
+            other = [o for o in conns if o is not cn]
+            if other:
+                o = g.pick(other)
+                o["sentby"], o["rport"] = cn["sentby"], False
+                cn["rport"] = False
+                dash_twin.append((o, ("PING", x + "-" + y) if first else ("PING-" + x, y)))
+            g.count("tcp_dash_method")
+        elif dash_twin and g.chance(0.7):
+            cn, (forced_method, br) = dash_twin.pop()
+        if forced_method is None and pending and g.chance(0.35):
             # distinct branch that extends (or is a prefix of) the branch of a transaction still open
             ob = g.pick(pending)["via"].get("branch")
             br = g.pick([ob + g.pick(["1", "0", "-1", "x"]), ob[:-1] if len(ob) > 9 else ob + "7"])
         while br in branches:
             br = "z9hG4bK" + g.word(ALNUM.upper(), 6, 10)
         branches.add(br)
-        method = g.pick(["INVITE", "OPTIONS", "MESSAGE", "REGISTER", "BYE"])
+        method = forced_method or g.pick(["INVITE", "OPTIONS", "MESSAGE", "REGISTER", "BYE"])
         ps = [("branch", br)] + ([("rport", "")] if cn["rport"] else [])
         via = Via("TCP", cn["sentby"][0], cn["sentby"][1], ps)
         d = Dialog(g, len(branches))
